@@ -149,12 +149,21 @@ func (m *monitor) filter(update database.Update) ovsdb.TableUpdates {
 			// tables were requested, otherwise all tables are watched.
 			continue
 		}
+		// columns or select that are not requested mean all of them
+		var columns []string
+		sel := ovsdb.NewDefaultMonitorSelect()
+		if req := m.request[table]; req != nil {
+			columns = req.Columns
+			if req.Select != nil {
+				sel = req.Select
+			}
+		}
 		tu := ovsdb.TableUpdate{}
 		var cols map[string]bool
-		if len(m.request[table].Columns) > 0 {
+		if len(columns) > 0 {
 			cols = make(map[string]bool)
 			cols["_uuid"] = true
-			for _, c := range m.request[table].Columns {
+			for _, c := range columns {
 				cols[c] = true
 			}
 		}
@@ -162,11 +171,11 @@ func (m *monitor) filter(update database.Update) ovsdb.TableUpdates {
 			ru := &ovsdb.RowUpdate{}
 			ru.FromRowUpdate2(ru2)
 			switch {
-			case ru.Insert() && m.request[table].Select.Insert():
+			case ru.Insert() && sel.Insert():
 				fallthrough
-			case ru.Modify() && m.request[table].Select.Modify():
+			case ru.Modify() && sel.Modify():
 				fallthrough
-			case ru.Delete() && m.request[table].Select.Delete():
+			case ru.Delete() && sel.Delete():
 				ru.New = filterColumns(ru.New, cols)
 				ru.Old = filterColumns(ru.Old, cols)
 				tu[uuid] = ru
@@ -188,22 +197,31 @@ func (m *monitor) filter2(update database.Update) ovsdb.TableUpdates2 {
 			// tables were requested, otherwise all tables are watched.
 			continue
 		}
+		// columns or select that are not requested mean all of them
+		var columns []string
+		sel := ovsdb.NewDefaultMonitorSelect()
+		if req := m.request[table]; req != nil {
+			columns = req.Columns
+			if req.Select != nil {
+				sel = req.Select
+			}
+		}
 		tu2 := ovsdb.TableUpdate2{}
 		var cols map[string]bool
-		if len(m.request[table].Columns) > 0 {
+		if len(columns) > 0 {
 			cols = make(map[string]bool)
 			cols["_uuid"] = true
-			for _, c := range m.request[table].Columns {
+			for _, c := range columns {
 				cols[c] = true
 			}
 		}
 		_ = update.ForEachRowUpdate(table, func(uuid string, ru2 ovsdb.RowUpdate2) error {
 			switch {
-			case ru2.Insert != nil && m.request[table].Select.Insert():
+			case ru2.Insert != nil && sel.Insert():
 				fallthrough
-			case ru2.Modify != nil && m.request[table].Select.Modify():
+			case ru2.Modify != nil && sel.Modify():
 				fallthrough
-			case ru2.Delete != nil && m.request[table].Select.Delete():
+			case ru2.Delete != nil && sel.Delete():
 				ru2.Insert = filterColumns(ru2.Insert, cols)
 				ru2.Modify = filterColumns(ru2.Modify, cols)
 				ru2.Delete = filterColumns(ru2.Delete, cols)
